@@ -172,3 +172,44 @@ Proof.
   split; [apply completeb_spec; vm_compute; reflexivity|].
   split; vm_compute; reflexivity.
 Qed.
+
+(* END TO END (Proofs/E2E*.v).  `hview W e json h` is what a renderer sees after
+   the history h of public-API calls (Model/Table.v: building calls in any
+   interleaving plus column property settings) over ARBITRARY items
+   (Model/Cell.v); `twf_hist h`: the building calls form a well-formed history
+   (Spec/History.v).  hist_header / hist_rows / hist_records / hist_ncols are
+   read off the history alone (Spec/TableHist.v); documented_text is C01's
+   text form (Spec/CellText.v). *)
+From Tab Require Import Model.Cell Model.Table Spec.TableHist Spec.CellText Proofs.E2EProofs.
+From Tab Require Import Proofs.E2EText.
+
+(* For every table a history can build, whatever the items (size overrides
+   included): Render() is the flattened layout. *)
+Theorem c03_history_refines : forall W e json d (h : list top),
+  twf_hist h -> (1 <= hist_ncols h)%nat -> dec_ok d ->
+  text_render W d (hview W e json h) = Ok (concat (map flatten (layout W d (hview W e json h)))).
+Proof. exact text_history_refines. Qed.
+Print Assumptions c03_history_refines.
+
+(* Where no item of the history overrides its size (no nested Cell value, no
+   object with Height() or TerminalCellWidth()): the layout is a rectangle
+   with aligned dividers ... *)
+Theorem c03_history_rectangle : forall W e json d (h : list top),
+  twf_hist h -> (1 <= hist_ncols h)%nat -> dec_ok d ->
+  Forall (item_plain e) (concat (hist_records h)) ->
+  forall l1 l2, In l1 (layout W d (hview W e json h)) -> In l2 (layout W d (hview W e json h)) ->
+  dwidth l1 = dwidth l2 /\ divider_offsets l1 = divider_offsets l2.
+Proof. exact text_history_rectangle. Qed.
+Print Assumptions c03_history_rectangle.
+
+(* ... and column i is as wide as the widest line of the documented text of
+   any header or body item the history put in it. *)
+Theorem c03_history_colwidth : forall W e json (h : list top),
+  twf_hist h -> Forall (item_plain e) (concat (hist_records h)) ->
+  forall i, colw W (hview W e json h) i
+  = list_max (map (fun r => match nth_error r i with
+                            | Some it => list_max (map W (lines_of (documented_text e it)))
+                            | None => 0%nat
+                            end) (hist_records h)).
+Proof. exact text_history_colwidth. Qed.
+Print Assumptions c03_history_colwidth.
